@@ -3,6 +3,7 @@
 copies out/<n> of a scratch worktree into /verif/seeded/<prop>-<index>/ with a meta.json"""
 import sys, os, json, shutil
 wt, n, prop, idx, summary, det = sys.argv[1:7]
+author = sys.argv[7] if len(sys.argv) > 7 else "fresh sub-agent (third round: asked for narrow changes away from the property's main mechanism) given only the property text and a scratch worktree of /repo"
 src = os.path.join(wt, "out", n)
 dst = "/verif/seeded/%s-%s" % (prop, idx)
 os.makedirs(dst, exist_ok=True)
@@ -14,7 +15,7 @@ meta = {
     "property": prop,
     "breaks": readme[:600],
     "needs_to_manifest": summary,
-    "author": "fresh sub-agent (third round: asked for narrow changes away from the property's main mechanism) given only the property text and a scratch worktree of /repo",
+    "author": author,
     "confirmed_by": "tools/confirm_mutant.sh in the scratch worktree: demo passes on pristine tree; with the patch go build ok, full suite passes, demo fails",
     "detection": json.loads(det),
     "how_run": "tools/trymutant.sh %s/patch.diff <property ids>" % dst,
